@@ -1289,6 +1289,9 @@ func (h *hist) govTx(t *rapid.T) (txSpec, bool) {
 		p.IssueTokenBaseFee = sdk.NewInt64Coin("stake", int64(pick(t, "basefee", []int{60000, 120000, 1000, 7})))
 		p.TokenTaxRate = dec("tax", "0.4", "0.1", "0.999", "0")
 		p.MintTokenFeeRatio = dec("mintratio", "0.1", "0.5", "1", "0")
+		// the two fields whose zero value is a meaningful setting (proto3 leaves zero values out of the encoding)
+		p.EnableErc20 = rapid.IntRange(0, 2).Draw(t, "erc20on") != 0
+		p.Beacon = pick(t, "beacon", []string{"", "", "0x00000000000000000000000000000000000000b1"})
 		msg = &tokenv1.MsgUpdateParams{Authority: gov, Params: p}
 	case 1:
 		p := k.Coinswap.GetParams(ctx)
@@ -1315,6 +1318,15 @@ func (h *hist) govTx(t *rapid.T) (txSpec, bool) {
 		p.MinDepositMultiple = int64(pick(t, "depmult", []int{1000, 1000, 1, 5000}))
 		p.MinDeposit = coins("stake", int64(pick(t, "mindep", []int{5000, 5000, 1, 20000})))
 		p.RestrictedServiceFeeDenom = rapid.IntRange(0, 5).Draw(t, "restrictdenom") == 0
+		p.TxSizeLimit = uint64(pick(t, "txsize", []int{4000, 4000, 1, 100000}))
+		p.ArbitrationTimeLimit = time.Duration(pick(t, "arbitration", []int{432000, 1, 3600})) * time.Second
+		p.ComplaintRetrospect = time.Duration(pick(t, "complaint", []int{1296000, 1, 60})) * time.Second
+		if rapid.IntRange(0, 5).Draw(t, "basedenom") == 0 {
+			// the coin in which deposits and fee caps are expressed changes (and may change back later): objects created
+			// under the old one stay as they are
+			p.BaseDenom = pick(t, "newbase", []string{"usdt", "stake", "eth"})
+			p.MinDeposit = sdk.NewCoins(sdk.NewInt64Coin(p.BaseDenom, 5000))
+		}
 		msg = &servicetypes.MsgUpdateParams{Authority: gov, Params: p}
 	}
 	sp, err := govv1.NewMsgSubmitProposal([]sdk.Msg{msg}, sdk.NewCoins(sdk.NewInt64Coin("stake", 5)), h.addr(0), "", "params", "change parameters", false)
